@@ -1239,7 +1239,8 @@ class Gen:
         elif k == "sp_of":
             self.declare(nm, SV("T", self.cur_region, sp_ok=True, const=s.const))
         elif k == "bv_of":
-            self.declare(nm, SV("T", self.cur_region))           # var b = bv_of(x): not a return value -> a copy
+            # var b = bv_of(x): the Boxed_Value itself comes back; a copy unless x is a parameter bound to a temporary
+            self.declare(nm, SV("T", self.cur_region, sp_ok=s.sp_ok if s.maybe_rv else True))
         else:
             self.declare(nm, SV("T", self.cur_region))
         return [("decl", nm, ("reffn", k, ("var", n)))]
@@ -1830,8 +1831,10 @@ def judge(c, case, impl, spec, mech):
         c.fail("an instrumented object was used or destroyed after its destruction: " + faults[0], info)
         return "touch-after-destroy"
     if errs:
-        c.disagree("life: the script raised an exception the generator did not plan", info, impl, spec)
-        return "script-error"
+        # an exception the generator did not plan (a validity rule of the generator is too weak): not a lifetime
+        # observation; the case is discarded and counted (the check fails if this becomes frequent)
+        c.extra.setdefault("discarded_script_errors", []).append({"script": case["script"], "impl": impl[:600]})
+        return "discarded:script-error"
     got = [(n, str(k)) for n, k in items]
     exp = list(zip(case["names"], spec_counts))
     if [n for n, _ in got] != [n for n, _ in exp] or len(spec_counts) != len(case["names"]):
@@ -2003,6 +2006,11 @@ def check(tier, seed):
                 c.dist["feature:" + f] = c.dist.get("feature:" + f, 0) + n
         if nontrivial(case):
             seen.add((case["script"], case["opt"]))
+    nd = len(c.extra.get("discarded_script_errors", []))
+    if nd > max(3, len(cases) // 200):
+        c.disagree("life: too many generated programs raise unplanned script exceptions", {"n": nd, "first": c.extra["discarded_script_errors"][0]}, "", "")
+    if nd:
+        c.extra["discarded_script_errors"] = c.extra["discarded_script_errors"][:3] + [{"n": nd}]
     c.cov["distinct_nontrivial"] = len(seen)
     c.cov["programs"] = len(cases) // 2
     c.cov["traces_validated_against_impl"] = len(cases)
